@@ -141,10 +141,12 @@ Proof.
 Qed.
 
 (* [t_granted] is the only field the lock manager writes in somebody else's thread: everything below looks at
-   threads with that field erased *)
+   threads with that field erased. [t_cancelled] (the request's context is done) is erased as well: nothing the
+   invariant says depends on it, so [ACancel] is invisible through [look]. *)
 Definition erase (th : thread) : thread :=
   {| t_req := t_req th; t_pc := t_pc th; t_postings := t_postings th; t_unb := t_unb th; t_view := t_view th;
-     t_entry := t_entry th; t_txid := t_txid th; t_granted := false; t_resp := t_resp th; t_gen := t_gen th |}.
+     t_entry := t_entry th; t_txid := t_txid th; t_granted := false; t_resp := t_resp th; t_gen := t_gen th;
+     t_cancelled := false |}.
 Definition lookt (l : list (tid * thread)) (t : tid) : option thread := option_map erase (get_thread l t).
 Definition look (s : state) (t : tid) : option thread := lookt (threads s) t.
 
@@ -181,3 +183,29 @@ Lemma unlock_glob t u : glob (unlock t u) = glob u.
 Proof. unfold unlock. destruct (recheck _ _ _) as [[q ths] l]. reflexivity. Qed.
 Lemma unlock_look t u t' : lookt (u_threads (unlock t u)) t' = lookt (u_threads u) t'.
 Proof. unfold unlock. destruct (recheck _ _ _) as [[q ths] l] eqn:Hr. simpl. eapply recheck_look; eauto. Qed.
+
+(* ---- cancellation: [with_cancelled] is invisible through [look]; [dequeue] touches the lock queue only --------- *)
+Lemma erase_with_cancelled th : erase (with_cancelled th) = erase th.
+Proof. reflexivity. Qed.
+
+Lemma lookt_set_same l t th th' : get_thread l t = Some th -> erase th' = erase th ->
+  forall t', lookt (set_thread l t th') t' = lookt l t'.
+Proof.
+  intros Hg He t'. rewrite lookt_set. destruct (Nat.eqb t t') eqn:E; auto.
+  apply Nat.eqb_eq in E; subst t'. unfold lookt. rewrite Hg. simpl. congruence.
+Qed.
+
+Lemma dequeue_glob t u : glob (dequeue t u) = glob u.
+Proof. reflexivity. Qed.
+Lemma dequeue_look t u t' : lookt (u_threads (dequeue t u)) t' = lookt (u_threads u) t'.
+Proof. reflexivity. Qed.
+
+(* what [unlock] leaves alone besides [glob] *)
+Lemma unlock_rest t u :
+  u_iks (unlock t u) = u_iks u /\ u_refs (unlock t u) = u_refs u /\ u_revs (unlock t u) = u_revs u /\ u_published (unlock t u) = u_published u.
+Proof. unfold unlock. destruct (recheck _ _ _) as [[q ths] l]. repeat split; reflexivity. Qed.
+
+Lemma remove_N_not_in x l : ~ In x (remove_N x l).
+Proof. unfold remove_N. intros H. apply filter_In in H. destruct H as [_ H]. rewrite N.eqb_refl in H. discriminate. Qed.
+Lemma remove_nat_not_in x l : ~ In x (remove_nat x l).
+Proof. unfold remove_nat. intros H. apply filter_In in H. destruct H as [_ H]. rewrite Nat.eqb_refl in H. discriminate. Qed.
